@@ -307,6 +307,40 @@ Section RoundTrip.
     unfold after_old_file. rewrite Hd. reflexivity.
   Qed.
 
+  (** ** any pre-1.3 layout: a comment block, a line of dimensions, a line of numbers, then nothing but blanks
+      (whatever the white space between tokens, trailing blanks, missing final newline, CR-LF endings) *)
+  Lemma skip_comments_general : forall cls h rest,
+    Forall (fun l => starts_hash l = true) cls -> starts_hash h = false ->
+    skip_comments (cls ++ h :: rest) = (map (fun l => strip (stail l)) cls, h :: rest).
+  Proof.
+    induction cls as [|l cls IH]; intros h rest Hc Hh.
+    - simpl. rewrite Hh. reflexivity.
+    - inversion Hc as [|? ? Hl Hcls]; subst. cbn [app skip_comments map]. rewrite Hl, (IH h rest Hcls Hh). reflexivity.
+  Qed.
+
+  Theorem from_file_pre13_any_layout : forall p mc cls h d rest sh data,
+    Forall (fun l => starts_hash l = true) cls -> starts_hash h = false ->
+    sh <> [] -> split_ws h = map print_nat sh ->
+    split_ws d = map (fmt p) data -> length data = nprod sh ->
+    sall is_space (nth 0 rest "") = true ->
+    from_file_lines parse mc (cls ++ h :: d :: rest)
+    = Some (map (fun l => strip (stail l)) cls,
+            mkSpec sh (map (round p) data)
+                   (if mc then set_corners (repeat false (length data)) else repeat false (length data))
+                   false None None).
+  Proof.
+    intros p mc cls h d rest sh data Hc Hh Hne Hsh Hd Hlen Hblank.
+    unfold from_file_lines. rewrite (skip_comments_general cls h (d :: rest) Hc Hh). cbn [nth].
+    unfold parse_header. rewrite Hsh, no_flag_in_dims. cbn [negb]. rewrite parse_nats_print.
+    destruct sh as [|n0 sh'] eqn:Esh; [congruence|]. rewrite <- Esh in *.
+    unfold read_numbers. rewrite split_ws_strip, Hd, map_length, Hlen, Nat.ltb_irrefl.
+    rewrite <- Hlen, <- (map_length (fmt p) data), firstn_all, map_map.
+    rewrite (map_ext _ _ (parse_fmt p)).
+    unfold strip at 1. rewrite (rstrip_allspace _ Hblank). cbn [lstrip is_empty option_map].
+    unfold mk_spectrum. cbn [a_flat a_shape labels_len_ok].
+    rewrite !map_length, Hlen, Nat.eqb_refl. reflexivity.
+  Qed.
+
   (** comments are returned stripped; they come back unchanged exactly when they carry no leading/trailing blanks *)
   Lemma comments_exact : forall comments, Forall (fun c => strip c = c) comments -> map strip comments = comments.
   Proof. induction 1; simpl; congruence. Qed.
